@@ -2062,8 +2062,28 @@ BTree_pop(BTree *self, PyObject *args)
     /* No default given.  The only difference in this case is the error
     * message, which depends on whether the tree is empty.
     */
-    if (BTree_length_or_nonzero(self, 1) == 0) /* tree is empty */
-        PyErr_SetString(PyExc_KeyError, "pop(): BTree is empty");
+    {
+        /* Looking at the tree may have to load ghost nodes, i.e. run the
+        * data manager's Python code: that must not happen while the
+        * KeyError is still pending.
+        */
+        PyObject *et, *ev, *tb;
+        int nonzero;
+
+        PyErr_Fetch(&et, &ev, &tb);
+        nonzero = BTree_length_or_nonzero(self, 1);
+        if (nonzero > 0)
+            PyErr_Restore(et, ev, tb);  /* the original KeyError */
+        else
+        {
+            Py_XDECREF(et);
+            Py_XDECREF(ev);
+            Py_XDECREF(tb);
+            if (nonzero == 0) /* tree is empty */
+                PyErr_SetString(PyExc_KeyError, "pop(): BTree is empty");
+            /* else: report the error raised while looking */
+        }
+    }
     return NULL;
 }
 
